@@ -26,8 +26,8 @@ BUDGET = {"quick": 50, "thorough": 420}
 RULE = "index k -> one routing cell + request sequence. Non-trivial = proxy involved with TLS or a refusal/close; distinct = distinct cell tuple."
 ASSUMPTIONS = ["a garbage CONNECT reply is not a status-coded refusal: any urllib3 error with an empty origin log is accepted there"]
 REQUIRED_PROBES = {
-    "quick": ["tunnel_ok", "forward_ok", "forward_https_optin", "optin_flag_without_effect", "connect_refused_no_leak", "proxy_cert_bad_no_leak", "origin_cert_bad_no_request", "retunnelled_after_close", "ipv6_connect_bracketed", "tls_in_tls", "proxy_headers_kept_out_of_tunnel"],
-    "thorough": ["tunnel_ok", "forward_ok", "forward_https_optin", "optin_flag_without_effect", "connect_refused_no_leak", "proxy_cert_bad_no_leak", "origin_cert_bad_no_request", "retunnelled_after_close", "ipv6_connect_bracketed", "tls_in_tls", "proxy_headers_kept_out_of_tunnel"],
+    "quick": ["tunnel_ok", "forward_ok", "forward_https_optin", "optin_flag_without_effect", "prelude_forwarded_with_same_headers_object", "connect_refused_no_leak", "proxy_cert_bad_no_leak", "origin_cert_bad_no_request", "retunnelled_after_close", "ipv6_connect_bracketed", "tls_in_tls", "proxy_headers_kept_out_of_tunnel"],
+    "thorough": ["tunnel_ok", "forward_ok", "forward_https_optin", "optin_flag_without_effect", "prelude_forwarded_with_same_headers_object", "connect_refused_no_leak", "proxy_cert_bad_no_leak", "origin_cert_bad_no_request", "retunnelled_after_close", "ipv6_connect_bracketed", "tls_in_tls", "proxy_headers_kept_out_of_tunnel"],
 }
 
 DEST_HOSTS = {"name": "origin.test", "ip4": "10.0.0.5", "ip6": "[fd00::5]", "upper": "Origin.Test"}
@@ -52,6 +52,9 @@ def gen(rng):
         "port": rng.choice([None, None, 8444]),
         "nreq": rng.choice([1, 1, 2, 3]),
         "close_between": rng.choice(["none", "origin_close", "proxy_idle_close", "none"]),
+        # a forwarded plain-http request through the same manager, made with the very same headers mapping, before the main sequence
+        # ("redirect": that request is answered 302 -> the main URL, so the manager itself carries the mapping across schemes)
+        "prelude_http": rng.choice([False, False, False, False, "plain", "redirect"]),
     }
     return {"property": ID, "cell": cell}
 
@@ -113,12 +116,26 @@ def run(sc: dict) -> Result:
     proxy_url = f"{ps}://proxy.test:{8443 if ps == 'https' else 3128}"
     ph = {k_: v_ for k_, v_ in c["proxy_headers"]}
     rh = {k_: v_ for k_, v_ in c["req_headers"]} or None
+    if c.get("prelude_http") and rh is None:
+        rh = {}
     with H.RunEnv(), H.quiet_warnings(), w:
         kw = dict(ca_certs=T.CA_GOOD, retries=False, timeout=3.0, proxy_headers=ph or None)
         if c["forwarding"]:
             kw["use_forwarding_for_https"] = True
         pm = urllib3.ProxyManager(proxy_url, **kw)
         outcomes = []
+        if c.get("prelude_http"):
+            try:
+                if c["prelude_http"] == "redirect":
+                    w.exchanges.insert(0, {"k": "resp", "status": 302, "headers": [["Location", url + "?i=r"]], "body": ""})
+                    pm.request("GET", f"http://{host}/pre", headers=rh, retries=1)
+                else:
+                    pm.request("GET", f"http://{host}/pre", headers=rh)
+                res.probes["prelude_forwarded_with_same_headers_object"] += 1
+            except (W.SimHang, W.StepLimit) as e:
+                res.bad("hang", str(e))
+            except Exception as e:
+                H.strip_tb(e)
         for i in range(c["nreq"]):
             try:
                 r = pm.request("GET", url + f"?i={i}", headers=rh)
@@ -133,7 +150,7 @@ def run(sc: dict) -> Result:
             if c["close_between"] != "none":
                 w.advance(2.0)
         # ---- observers
-        at_proxy = [q for q in w.requests if q.peer == "proxy"]
+        at_proxy = [q for q in w.requests if q.peer == "proxy" and not q.target.endswith("/pre")]
         at_origin = [q for q in w.requests if q.peer == "origin"]
         origin_plain = sum(len(tp.plain_in) for tp in origin_tls)
         ph_names = {k_.lower() for k_, _ in c["proxy_headers"]}
@@ -266,9 +283,9 @@ def _has_proxy_error(e) -> bool:
 
 
 def shrinks(sc):
-    simple = {"proxy_scheme": "http", "dest_scheme": "https", "forwarding": False, "proxy_cert": "ok", "origin_cert": "ok", "connect": "200", "proxy_headers": [], "req_headers": [], "host": "name", "port": None, "nreq": 1, "close_between": "none"}
+    simple = {"prelude_http": False, "proxy_scheme": "http", "dest_scheme": "https", "forwarding": False, "proxy_cert": "ok", "origin_cert": "ok", "connect": "200", "proxy_headers": [], "req_headers": [], "host": "name", "port": None, "nreq": 1, "close_between": "none"}
     for k, v in simple.items():
-        if sc["cell"][k] != v:
+        if sc["cell"].get(k, v) != v:
             c = copy.deepcopy(sc)
             c["cell"][k] = v
             yield c
